@@ -29,24 +29,25 @@ def verify(chk, name, function, run, post, clause=None, replay=None, encoding="q
     for k, pr in enumerate(results):
         chk.record_path(pr)
         tag = "%s.p%d" % (name, k) if len(results) > 1 else name
-        hyps = pr.ctx.hyps()
         if pr.raised is not None or pr.pyexc is not None:
+            hyps = pr.ctx.hyps()
             what = ("raise %s at line %d" % (pr.raised.what, pr.raised.lineno)) if pr.raised is not None else str(pr.pyexc)
             if allow_raise and allow_raise(pr):
                 continue
             chk.add("%s.no-exception[%s]" % (tag, what[:80]), hyps, z3.BoolVal(False), function, "definedness", clause, replay, kind="definedness")
             continue
         npaths += 1
-        chk.definedness_obligations(tag, pr, function, clause, replay, skip=skip_defs)
-        for q, (lname, lf, lassum, lpc) in enumerate(getattr(pr.ctx, "lemmas", [])):
-            chk.add("%s.lemma.%d[%s]" % (tag, q, lname), list(lassum) + list(lpc), lf, function, "lemma", clause, replay, kind="lemma")
-        if frame:
-            chk.frame_obligations(tag, pr, function, clause, replay)
         try:
             clauses = post(pr) or []
         except Unsupported as ex:
             chk.unsupported.append((tag, "postcondition not expressible on this path: %s" % ex))
             continue
+        hyps = pr.ctx.hyps()       # after post(): evaluating result elements may instantiate loop-summary facts
+        chk.definedness_obligations(tag, pr, function, clause, replay, skip=skip_defs)
+        for q, (lname, lf, lassum, lpc) in enumerate(getattr(pr.ctx, "lemmas", [])):
+            chk.add("%s.lemma.%d[%s]" % (tag, q, lname), list(lassum) + list(lpc), lf, function, "lemma", clause, replay, kind="lemma")
+        if frame:
+            chk.frame_obligations(tag, pr, function, clause, replay)
         for item in clauses:
             if len(item) == 2:
                 cname, goal = item
